@@ -26,6 +26,22 @@ EXPLANATION = ('Lean theorems about getBindings / wrapperCall (Gin/Call.lean) + 
 def gen_case(rng):
   regs = G.gen_registry(rng, rng.randint(1, 3))
   ops = list(regs)
+  if rng.random() < 0.2:
+    # a function registered again (interactive mode) under the same name, with its positional parameters in another
+    # order: the calls below go to the new function, with the new function's parameter names
+    import copy
+    cands = [r for r in regs if r['_kind'] == 'fn' and r['_api'] in ('configurable', 'external') and len(r['sig']['pos']) >= 2
+             and not r.get('_decorated') and not r['allow'] and not r['deny']]
+    if cands:
+      old = rng.choice(cands)
+      new = copy.deepcopy(old)
+      new['obj'] = 90
+      new['sig']['pos'] = sorted(new['sig']['pos'], key=lambda p: p[1] is not None)   # stable: parameters without default first
+      new['sig']['pos'] = list(reversed([p for p in new['sig']['pos'] if p[1] is None])) + \
+          list(reversed([p for p in new['sig']['pos'] if p[1] is not None]))
+      if new['sig']['pos'] != old['sig']['pos']:
+        ops += [{'op': 'interactive', 'on': True}, new, {'op': 'interactive', 'on': False}]
+        regs[regs.index(old)] = new
   focus = G.rand_scope(rng)
   scopes = [focus[:i] for i in range(len(focus) + 1)]
   scopes += [focus[:i] + [rng.choice(G.SCOPE_ALPHA)] for i in range(len(focus) + 1)]  # siblings / extensions
